@@ -233,3 +233,11 @@ RULES = [
     ("C10.c", "who may call Action::next", rule_c),
     ("C10.d", "every executed action goes through the pull helper", rule_d),
 ]
+
+
+def rule_inventory(ctx):
+    from . import inventory
+    inventory.check(ctx, ['sched-queue-pull', 'sched-queue-insert'])
+
+
+RULES.append(("C10.h", "state-mutation inventory: no new site that changes the content of the state this property rests on", rule_inventory))
